@@ -3,10 +3,12 @@ print VIOLATION / KNOWN-FINDING / UNDECIDED lines and pick the exit code (DESIGN
 
 Exit codes: 0 held (or only listed known findings) | 1 violation | 2 undecided | 3 checker fault.
 """
+import ast
 import itertools
 import json
 import math
 import os
+import re
 import subprocess
 import sys
 import time
@@ -67,6 +69,7 @@ class Run:
             s.repo = argv[argv.index("--repo") + 1]
         s.src = Source(s.repo)
         s.obls, s.functions, s.assumed, s.bounded_log, s.notes = [], {}, set(), [], []
+        s.wrapped = {}
         s.t0 = time.time()
         s.timeout = 40 if s.tier == "quick" else 300
         s.level = "proof"
@@ -83,8 +86,16 @@ class Run:
                 o.name = o.name if o.name.startswith(s.pid + "/") else f"{s.pid}/{o.name}"
                 s.obls.append(o)
 
+    MODELLED_DECORATORS = re.compile(r"^(staticmethod|classmethod|property|[\w.]+\.(setter|getter|deleter)|(contextlib\.)?contextmanager|(typing\.)?(overload|final|override|no_type_check)|"
+                                     r"(abc\.)?abstractmethod)$")
+
     def under_contract(s, module, qual, node):
         s.functions[f"fuzzylite.{module}.{qual}"] = {"where": s.src.where(module, node), "hash": s.src.fhash(module, node)}
+        # the obligations speak about the function BODY; a decorator that wraps the function (a cache, a retry, ...) makes the code that runs
+        # something else, so the proof does not transfer: recorded as an undecided obligation (a violation if the native replay reproduces a failure)
+        extra = [ast.unparse(d) for d in getattr(node, "decorator_list", []) if not s.MODELLED_DECORATORS.match(ast.unparse(d))]
+        if extra:
+            s.wrapped[f"{module}.{qual.replace('[setter]', '')}"] = extra
 
     def assume(s, *ids):
         s.assumed.update(ids)
@@ -256,6 +267,10 @@ class Run:
         if dups:
             print(f"CHECKER-FAULT property={s.pid} duplicate obligation names: {sorted(dups)[:5]}")
             return 3
+        for fq, decs in sorted(s.wrapped.items()):
+            rp = next((o.meta.get("replay") for o in s.obls if o.fn == fq and o.meta.get("replay")), None) or next((o.meta.get("replay") for o in s.obls if o.fn and o.fn.startswith(fq.rsplit(".", 1)[0]) and o.meta.get("replay")), None)
+            s.obls.append(solve.undecided(f"{s.pid}/{fq}/decorators_modelled", f"the function under contract is wrapped by @{', @'.join(decs)}: the code that runs is the wrapper, "
+                                          "which the extraction does not model (a memoised result may outlive the state it was computed from)", fn=fq, meta={"replay": rp} if rp else None))
         solve.discharge(s.obls, s.timeout)
         if s.tier == "thorough":
             # second solver: every obligation z3 proved is decided again by cvc5; a `sat` there is a checker fault (the trusted base disagrees)
